@@ -19,8 +19,8 @@ LEVEL_TEXT = ('every sequence of argument classes (trashable file/dir/symlink, n
 LEVEL_NOTE = 'trusted: snapshot classifier; end-of-input at an -i prompt is excluded (covered by C01); permission failures are not modelled (root)'
 RULE = ('sequences of length 1..3 (thorough 1..4) over {file, dir, link, dangling link, missing, dot, dotdot, nonutf8, untrashable, dup, empty string, @name (the last two only in sequences of length <= 2 in the quick tier)} (dup not first) x mode {-, -f, -i all y, '
         '-i all n, -i alternating y/n, -i alternating y/empty/blank, -v, HOME with regex metacharacters, --trash-dir on the home volume (one candidate shared by arguments of several volumes)}; non-trivial = at least two arguments with different outcomes; distinct = (mode, multiset of classes, exit, outcome vector)')
-CLASSES = ['file', 'dir', 'link', 'dangling', 'missing', 'dot', 'dotdot', 'nonutf8', 'untrashable', 'dup', 'emptystr', 'atname', 'mountpoint']
-NEWER = ('emptystr', 'atname', 'mountpoint')          # quick: only in sequences of length <= 2
+CLASSES = ['file', 'dir', 'link', 'dangling', 'missing', 'dot', 'dotdot', 'nonutf8', 'untrashable', 'dup', 'emptystr', 'atname', 'mountpoint', 'unreachable']
+NEWER = ('emptystr', 'atname', 'mountpoint', 'unreachable')          # quick: only in sequences of length <= 2
 MODES = ['-', '-f', '-iy', '-in', '-ialt', '-iblank', '-v', 'odd-home', 'td-home']
 B = '/home/u/w'
 PROMPT = re.compile(r"trash-put: trash .*? '(.*?)'\? ", re.S)
@@ -68,12 +68,19 @@ def make_world(seq):
         elif cl == 'dotdot':
             args.append(('..', None))
         elif cl == 'nonutf8':
-            n = 'nu8-%d-\udcff' % i
+            n = 'nu8-%d-100%%s-\udcff' % i
             W.file('%s/%s' % (B, n), 'bytes\n')
             args.append((n, '%s/%s' % (B, n)))
         elif cl == 'untrashable':
-            W.file('/mnt/vb/u%d' % i, 'stuck\n')
-            args.append(('/mnt/vb/u%d' % i, '/mnt/vb/u%d' % i))
+            W.file('/mnt/vb/u%d %%d%%' % i, 'stuck\n')
+            args.append(('/mnt/vb/u%d %%d%%' % i, '/mnt/vb/u%d %%d%%' % i))
+        elif cl == 'unreachable':
+            # names nothing, and the kernel says so with another errno than ENOENT: a component of 300 bytes (odd positions) / a symlink loop (even positions)
+            if i % 2:
+                args.append(('X' * 300, None))
+            else:
+                W.link('%s/loop%d' % (B, i), 'loop%d' % i)
+                args.append(('loop%d/x' % i, None))
         elif cl == 'mountpoint':
             args.append(('/mnt/vc', '/mnt/vc'))          # a mount point: its move is refused by itself (EBUSY), after the .trashinfo was written
         elif cl == 'emptystr':
